@@ -32,6 +32,10 @@ pub enum Op {
         args: Vec<String>,
         by_path: bool,
         out_file: bool,
+        /// how the values of a text input are separated: 0 as sfs writes them (one line), 1 one value
+        /// per line, 2 tabs, 3 a line break after every third value and a trailing blank line
+        #[serde(default)]
+        text_sep: u8,
     },
 }
 
@@ -85,12 +89,36 @@ pub fn input_bytes(op: &Op) -> Option<(Vec<u8>, Vec<usize>)> {
             spec,
             input_npy,
             in_precision,
+            text_sep,
             ..
         } => {
             let scs = l1::scs_from(&spec.shape, &spec.bits);
             let mut v = vec![];
             match l1::write_spectrum(&mut v, &scs, *input_npy, *in_precision) {
-                l1::Res::Ok(()) => Some((v, vec![6, 8, 10])),
+                l1::Res::Ok(()) => {
+                    if !*input_npy && *text_sep != 0 {
+                        // the same values, separated by other whitespace the reader accepts
+                        if let Ok(text) = std::str::from_utf8(&v) {
+                            if let Some((header, rest)) = text.split_once('\n') {
+                                let toks: Vec<&str> = rest.split_ascii_whitespace().collect();
+                                let mut body = String::new();
+                                for (k, t) in toks.iter().enumerate() {
+                                    if k > 0 {
+                                        body.push_str(match *text_sep {
+                                            1 => "\n",
+                                            2 => "\t",
+                                            _ => if k % 3 == 0 { "\n" } else { " " },
+                                        });
+                                    }
+                                    body.push_str(t);
+                                }
+                                let tail = if *text_sep == 3 { "\n\n" } else { "\n" };
+                                v = format!("{header}\n{body}{tail}").into_bytes();
+                            }
+                        }
+                    }
+                    Some((v, vec![6, 8, 10]))
+                }
                 _ => None,
             }
         }
@@ -159,6 +187,7 @@ pub fn gen(rng: &mut Rng, tier: Tier) -> Case {
             args,
             by_path: rng.chance(1, 3),
             out_file: cmd != "stat" && rng.chance(1, 3),
+            text_sep: if rng.chance(1, 3) { rng.range(1, 3) as u8 } else { 0 },
         }
     };
     let (len, bounds) = input_bytes(&op).map(|(b, x)| (b.len(), x)).unwrap_or((1, vec![]));
@@ -623,6 +652,7 @@ pub fn shrink(case: &Case) -> Vec<Case> {
             args,
             by_path,
             out_file,
+            text_sep,
         } => {
             if spec.bits.len() > 1 {
                 let n = spec.bits.len() / 2;
@@ -638,6 +668,7 @@ pub fn shrink(case: &Case) -> Vec<Case> {
                         args: args.clone(),
                         by_path: *by_path,
                         out_file: *out_file,
+                        text_sep: *text_sep,
                     },
                     mode: case.mode.clone(),
                 });
